@@ -105,7 +105,8 @@ class C13(Spec):
     extra_models = ('slistp',)
     driver = 'slist'
     lib_srcs = ['slist.c']
-    header_words = ('keys', 'nlists', 'cmpmode')
+    header_words = ('keys', 'nlists', 'cmpmode', 'vsign')
+    vsign_every = 2
     rule = ('cases = corpus + one case per edge of the breadth-first closure of the Coq model over a small scope '
             '(shortest path to the state + the operation) + seeded random histories; a case is non-trivial when '
             'its model trace has at least two completed operations; distinct = distinct (header, operations) text')
